@@ -56,7 +56,10 @@ def instance(rng, e: dict, sexp: dict, mode: str = "random", depth: int = 0) -> 
         return [instance(rng, e["items"], sexp, mode, depth + 1) for _ in range(n)]
     if k == "map":
         n = 0 if depth > 3 else (rng.randint(0, 2) if mode != "max" else 2)
-        return {f"k{i}": instance(rng, e["values"], sexp, mode, depth + 1) for i in range(n)}
+        out = {f"k{i}": instance(rng, e["values"], sexp, mode, depth + 1) for i in range(n)}
+        if e["values"].get("nullable") and mode in ("nulls", "random", "max"):
+            out["knull"] = None      # a null ENTRY of a map is data, not an absent optional property
+        return out
     if k == "inline_object":
         return obj(rng, e["props"], sexp, mode, depth + 1)
     if k == "union":
